@@ -120,6 +120,18 @@ func main() {
 	}
 	c.P = p
 	installAccessorResolver(p)
+	if os.Getenv("VX_DUMP_FUNCS") != "" {
+		dumpFuncNames(p)
+		return
+	}
+	func() {
+		defer func() {
+			if r := recover(); r != nil {
+				c.add("PANIC", "normalise", token.NoPos, Undecided, true, "checker panic while normalising: %v\n%s", r, debug.Stack())
+			}
+		}()
+		globalNormalise(c)
+	}()
 	func() {
 		defer func() {
 			if r := recover(); r != nil {
